@@ -827,8 +827,17 @@ int mpq_EGlpNumReadStrXc (mpq_t var,
 			mpz_neg (mpq_numref (den[cn]), mpq_numref (den[cn]));
 		/* ending */
 		mpq_canonicalize (den[0]);
-		mpq_canonicalize (den[1]);
-		mpq_div (var, den[0], den[1]);
+		if (mpz_sgn (mpq_numref (den[1])) == 0)
+		{
+			/* "p/0" (or an empty denominator) is not a number: report that
+			 * nothing was read instead of raising SIGFPE inside GMP */
+			n_char = 0;
+		}
+		else
+		{
+			mpq_canonicalize (den[1]);
+			mpq_div (var, den[0], den[1]);
+		}
 	}
 	mpq_clear (den[0]);
 	mpq_clear (den[1]);
